@@ -31,8 +31,11 @@ def scale (b : Bounds α) (c : α) : Bounds α :=
   if Arith.eq c zero then singleton zero
   else if Arith.gt c zero then ⟨mul b.lower c, mul b.upper c⟩
   else ⟨mul b.upper c, mul b.lower c⟩
+/-- `Bounds::div_by` (after fix 6650688: the endpoints are divided, no reciprocal). -/
 def divBy (b : Bounds α) (d : α) : Bounds α :=
-  if Arith.eq d zero then unbounded else scale b (div one d)
+  if Arith.eq d zero then unbounded
+  else if Arith.gt d zero then ⟨div b.lower d, div b.upper d⟩
+  else ⟨div b.upper d, div b.lower d⟩
 def abs (b : Bounds α) : Bounds α :=
   if Arith.ge b.lower zero then b
   else if Arith.le b.upper zero then neg b
